@@ -175,6 +175,7 @@ type Interp struct {
 	loopBoundOverride int
 	inPure bool
 	schedTrace []int
+	selTrace   []int
 }
 
 type knownRegion struct {
@@ -249,6 +250,7 @@ func (in *Interp) resetPath(prefix []int) {
 	in.ghostOn = false
 	in.inPure = false
 	in.schedTrace = nil
+	in.selTrace = nil
 }
 
 func (in *Interp) assumeTerm(c *Term) {
